@@ -99,3 +99,114 @@ Proof.
   unfold qabs, epsS. apply Qlt_le_trans with x; [| apply Q.le_max_l].
   apply Qlt_le_trans with (1 # 524288); [reflexivity| exact H].
 Qed.
+
+(* ------------------------------------------------------------------ the general case: error term *)
+(* Entries in (0, 1e-6] are dropped by the sparse models.  For any well-formed POMDP and any belief on the
+   simplex every entry of the sparse unnormalised update lies below the dense one by at most 2 * 1e-6. *)
+Lemma sparsify_bounds : forall x, 0 <= x -> 0 <= sparsify x /\ sparsify x <= x /\ x - sparsify x <= epsS.
+Proof.
+  intros x Hx. unfold sparsify. destruct (Qle_bool (qabs x) epsS) eqn:E.
+  - apply Qle_bool_iff in E. unfold qabs in E. pose proof (Q.le_max_l x (- x)). repeat split; lra.
+  - repeat split; try lra. unfold epsS. assert (0 <= 1 # 1000000) by (unfold Qle; cbn; lia). lra.
+Qed.
+
+Lemma nthq_map_sparsify : forall r j, nthq (map sparsify r) j == sparsify (nthq r j).
+Proof.
+  intros r j. destruct (Nat.lt_ge_cases j (length r)) as [Hj|Hj].
+  - unfold nthq. rewrite (nth_indep _ 0 (sparsify 0)) by (rewrite map_length; exact Hj).
+    rewrite (map_nth sparsify). reflexivity.
+  - rewrite !nthq_overflow by (rewrite ?map_length; exact Hj). reflexivity.
+Qed.
+
+Lemma row_sparsify_mat : forall M s, row (sparsify_mat M) s = map sparsify (row M s).
+Proof. intros M s. unfold row, sparsify_mat. exact (map_nth (map sparsify) M [] s). Qed.
+
+Lemma Tp_sparse : forall m s a s', Tp (sparse_of m) s a s' == sparsify (Tp m s a s').
+Proof.
+  intros. unfold Tp, trow. cbn [sparse_of pm P]. rewrite nth_sparsify, row_sparsify_mat. apply nthq_map_sparsify.
+Qed.
+
+Lemma Op_sparse : forall m s' a o, Op (sparse_of m) s' a o == sparsify (Op m s' a o).
+Proof.
+  intros. unfold Op, orow. cbn [sparse_of Ob]. rewrite nth_sparsify, row_sparsify_mat. apply nthq_map_sparsify.
+Qed.
+
+Lemma nthq_le_qsum : forall p i, nonneg p -> nthq p i <= qsum p.
+Proof.
+  intros p i H. revert i. induction H as [|x p Hx H IH]; intros i; [rewrite nthq_nil; cbn [qsum]; lra|].
+  pose proof (qsum_nonneg p H). destruct i; unfold nthq; cbn [nth qsum]; [lra|].
+  specialize (IH i). unfold nthq in IH. lra.
+Qed.
+
+Lemma Tp_le_1 : forall m s a s', wf_pomdp m -> (a < nA (pm m))%nat -> (s < nS (pm m))%nat -> Tp m s a s' <= 1.
+Proof.
+  intros m s a s' W Ha Hs. destruct (wf_T m a W Ha) as [_ H]. destruct (H s Hs) as [_ [Hn Hsum]].
+  rewrite <- Hsum. apply nthq_le_qsum. exact Hn.
+Qed.
+
+Lemma Op_le_1 : forall m s' a o, wf_pomdp m -> (a < nA (pm m))%nat -> (s' < nS (pm m))%nat -> Op m s' a o <= 1.
+Proof.
+  intros m s' a o W Ha Hs. destruct (wf_O m a W Ha) as [_ H]. destruct (H s' Hs) as [_ [Hn Hsum]].
+  rewrite <- Hsum. apply nthq_le_qsum. exact Hn.
+Qed.
+
+(* pointwise form of the sparse model's unnormalised update; needs only the shapes *)
+Lemma unnormE_sparse_nth : forall m b a o s', wf_pomdp m -> length b = nS (pm m) ->
+  (a < nA (pm m))%nat -> (s' < nS (pm m))%nat ->
+  nthq (unnormE (sparse_of m) b a o) s' == bayes_unnorm (sparse_of m) b a o s'.
+Proof.
+  intros m b a o s' W Hb Ha Hs. destruct (wf_T m a W Ha) as [HL _].
+  unfold unnormE. rewrite nthq_cwise, nthq_col.
+  assert (HLs : length (tmat (sparse_of m) a) = nS (pm m)).
+  { unfold tmat. cbn [sparse_of pm P]. rewrite nth_sparsify. unfold sparsify_mat. rewrite map_length. exact HL. }
+  cbn [sparse_of pm nS]. rewrite nthq_vecmat by (rewrite ?HLs; try assumption; lia). rewrite HLs. reflexivity.
+Qed.
+
+Ltac prod_nonneg u v := let H := fresh "PN" in assert (H : 0 <= u * v) by (apply Qmult_le_0_compat; lra).
+
+Lemma sparse_error_lemma : forall m b a o s',
+  wf_pomdp m -> simplex (nS (pm m)) b -> (a < nA (pm m))%nat -> (o < nO m)%nat -> (s' < nS (pm m))%nat ->
+  0 <= nthq (unnormE m b a o) s' - nthq (unnormE (sparse_of m) b a o) s' /\
+  nthq (unnormE m b a o) s' - nthq (unnormE (sparse_of m) b a o) s' <= 2 * epsS.
+Proof.
+  intros m b a o s' W [Hb [Hn Hsum]] Ha Ho Hs.
+  rewrite (unnormE_nth m W b a Ha Hb o s' Hs), (unnormE_sparse_nth m b a o s' W Hb Ha Hs).
+  unfold bayes_unnorm. rewrite Op_sparse.
+  set (P := pred_at m b a s'). set (P' := pred_at (sparse_of m) b a s').
+  pose proof (Op_nonneg m s' a o W Ha Hs) as O0. pose proof (Op_le_1 m s' a o W Ha Hs) as O1.
+  destruct (sparsify_bounds _ O0) as [S0 [S1 S2]].
+  assert (E0 : 0 <= epsS) by (unfold epsS, Qle; cbn; lia).
+  assert (Hsb : qsum (map (fun s => nthq b s) (states m)) == 1).
+  { rewrite <- Hsum. rewrite (qsum_as_index b), Hb. reflexivity. }
+  assert (TB : forall s, (s < nS (pm m))%nat ->
+             0 <= nthq b s /\ 0 <= sparsify (Tp m s a s') /\ sparsify (Tp m s a s') <= Tp m s a s' /\
+             Tp m s a s' - sparsify (Tp m s a s') <= epsS /\ Tp m s a s' <= 1).
+  { intros s Hlt. pose proof (nonneg_nthq b s Hn).
+    destruct (sparsify_bounds _ (Tp_nonneg m s a s' W Ha Hlt)) as [X0 [X1 X2]].
+    pose proof (Tp_le_1 m s a s' W Ha Hlt). repeat split; assumption. }
+  assert (L1 : P' <= P).
+  { unfold P, P', pred_at. change (states (sparse_of m)) with (states m). apply qsum_map_le. intros s Hin. apply in_seq in Hin.
+    rewrite Tp_sparse. destruct (TB s ltac:(lia)) as [B0 [X0 [X1 [X2 X3]]]].
+    prod_nonneg (nthq b s) (Tp m s a s' - sparsify (Tp m s a s')). lra. }
+  assert (L0 : 0 <= P').
+  { unfold P', pred_at. change (states (sparse_of m)) with (states m). apply qsum_map_nonneg. intros s Hin. apply in_seq in Hin.
+    rewrite Tp_sparse. destruct (TB s ltac:(lia)) as [B0 [X0 [X1 [X2 X3]]]].
+    apply Qmult_le_0_compat; assumption. }
+  assert (L2 : P <= P' + epsS).
+  { unfold P, P', pred_at. change (states (sparse_of m)) with (states m).
+    apply Qle_trans with (qsum (map (fun s => nthq b s * Tp (sparse_of m) s a s' + epsS * nthq b s) (states m))).
+    - apply qsum_map_le. intros s Hin. apply in_seq in Hin. rewrite Tp_sparse.
+      destruct (TB s ltac:(lia)) as [B0 [X0 [X1 [X2 X3]]]].
+      prod_nonneg (nthq b s) (epsS - (Tp m s a s' - sparsify (Tp m s a s'))). lra.
+    - rewrite (qsum_map_add nat (fun s => nthq b s * Tp (sparse_of m) s a s') (fun s => epsS * nthq b s) (states m)).
+      rewrite (qsum_map_scale_l nat (fun s => nthq b s) epsS (states m)), Hsb. lra. }
+  assert (L3 : P <= 1).
+  { unfold P, pred_at. rewrite <- Hsb. apply qsum_map_le. intros s Hin. apply in_seq in Hin.
+    destruct (TB s ltac:(lia)) as [B0 [X0 [X1 [X2 X3]]]].
+    prod_nonneg (nthq b s) (1 - Tp m s a s'). lra. }
+  set (x := Op m s' a o) in *. set (y := sparsify x) in *.
+  prod_nonneg (x - y) P'. prod_nonneg (x - y) (P - P'). prod_nonneg y (P - P').
+  prod_nonneg (epsS - (x - y)) P. prod_nonneg (x - y) (1 - P). prod_nonneg (1 - y) (P - P').
+  prod_nonneg y (epsS - (P - P')). prod_nonneg (1 - y) (epsS - (P - P')). prod_nonneg (epsS - (x - y)) (1 - P).
+  split; lra.
+Qed.
